@@ -277,7 +277,12 @@ class HttpParser:
 
         # URI
         self._url = bits[1]
-        parts = urlsplit(bits[1])
+        if bits[1].startswith('//'):
+            # origin-form with an empty first segment, not a network-path
+            # reference: '//a/b' must not lose 'a' as if it were a host
+            parts = urlsplit('//-' + bits[1])._replace(netloc='')
+        else:
+            parts = urlsplit(bits[1])
         self._scheme = parts.scheme or None
         self._path = parts.path or ''
         self._query_string = parts.query or ''
